@@ -406,9 +406,12 @@ impl InferShapes for Squeeze {
             .transpose()?;
 
         // Symbolic vector to scalar
+        //
+        // If `axes` is present but its values are unknown, it may be empty, in
+        // which case nothing is squeezed.
         if let Some(values) = data.as_vector()
             && values.len() == 1
-            && matches!(const_axes.as_deref(), Some([0]) | None)
+            && (matches!(const_axes.as_deref(), Some([0])) || axes.is_none())
         {
             return Ok([SymTensor::from_scalar(values[0].clone())].into());
         }
